@@ -425,3 +425,42 @@ VOP(js_deep)
 	}
 	Out("js_deep n=" + std::to_string(n) + " " + res);
 }
+
+// js_encdeep n=<depth> mode=<plain|co>: JsonEncode (and destruction) of an n-deep array built without the decoder, in a forked child.
+// Experiment only (not part of the generated population): such a value cannot come from the network any more.
+VOP(js_encdeep)
+{
+	long n = a.num("n", 1);
+	int pfd[2];
+	if (pipe(pfd) != 0) throw std::runtime_error("pipe");
+	pid_t pid = fork();
+	if (pid == 0) {
+		::close(pfd[0]);
+		alarm(60);
+		std::string res;
+		auto run = [&]() {
+			Array::Ptr cur = new Array();
+			for (long i = 1; i < n; i++) { Array::Ptr outer = new Array(); outer->Add(cur); cur = outer; }
+			String enc = JsonEncode(cur);
+			res = "ok len=" + std::to_string(enc.GetLength());
+			(void)!write(pfd[1], res.data(), res.size());
+			res = "";
+			cur = nullptr; // destruction
+			res = " destroyed";
+		};
+		if (a.str("mode", "plain") == "co") {
+			boost::asio::io_context io;
+			IoEngine::SpawnCoroutine(io, [&](boost::asio::yield_context) { run(); });
+			io.run();
+		} else run();
+		(void)!write(pfd[1], res.data(), res.size());
+		_exit(0);
+	}
+	::close(pfd[1]);
+	char buf[128]; ssize_t k; std::string got;
+	while ((k = read(pfd[0], buf, sizeof buf)) > 0) got.append(buf, k);
+	::close(pfd[0]);
+	int status = 0;
+	waitpid(pid, &status, 0);
+	Out("js_encdeep n=" + std::to_string(n) + " " + (got.empty() ? std::string("-") : got) + (WIFSIGNALED(status) ? " crash status=" + std::to_string(WTERMSIG(status)) : std::string("")));
+}
